@@ -797,16 +797,19 @@ def lib_merge(case, texts, outp=None):
         from yamlpath.merger.enums.outputdoctypes import OutputDocTypes
         editor = Parsers.get_yaml_editor()
         is_json = mergers[0].prepare_for_dump(editor, outp or "") is OutputDocTypes.JSON
-        for m in mergers:
-            m.prepare_for_dump(editor, outp or "")
-        return 0, ([m.data for m in mergers], is_json)
+        # the first document decides how the stream is written; under `-D auto` every document is nevertheless prepared
+        # according to its OWN root style (a flow-style root: dumped as JSON and reloaded - sets become {member: null},
+        # keys become text - even when the stream is then written as YAML)
+        flags = [m.prepare_for_dump(editor, outp or "") is OutputDocTypes.JSON for m in mergers]
+        flags[0] = flags[0] or is_json
+        return 0, ([m.data for m in mergers], is_json, flags)
     g = ed.guarded(go, 15.0)
     if g[0] != "ok":
         return {"crash": g[0]}
     state, datas = g[1]
     res = {"exit": state, "docs": None}
     if datas is not None:
-        datas, res["is_json"] = datas
+        datas, res["is_json"], res["json_flags"] = datas
         try:
             res["docs"] = [codec.node_to_json(d, anchors=False) for d in datas]
         except codec.OutOfModel:
@@ -1006,19 +1009,25 @@ def judge_merge(case, f, ctx, answers):
             f.dis("merge-exit:impl=%d,model=%d" % (r["rc"], mo["exit"]), "%s exits %d; the Lean merge model %d" % (desc, r["rc"], mo["exit"]))
         return
     if r["rc"] == 0 and got is not None:
-        if not _merge_same(got, mo["docs"], bool(lib.get("is_json"))):
+        if not _merge_same(got, mo["docs"], bool(lib.get("is_json")), lib.get("json_flags")):
             f.dis("merge-result-differs-from-model", "%s wrote %s; the Lean model predicts %s" % (
                 desc, _show(ctx["produced"] or r["out"], 300), [_showj(d) for d in mo["docs"]]))
         if mo["toFile"] != bool(ctx["outp"]):
             f.dis("merge-destination", desc)
 
 
-def _merge_same(got, want, as_json):
+def _merge_same(got, want, as_json, json_flags=None):
+    """json_flags (comparison with the Lean model's documents, which are never "prepared for dump"): the documents
+    that Merger.prepare_for_dump passed through JSON although the stream was written as YAML (`-D auto`, first document
+    with a block-style root, this one with a flow-style root): compared as the JSON data they were reduced to."""
     if want is None or len(got) != len(want):
         return False
-    for g, w in zip(got, want):
+    for i, (g, w) in enumerate(zip(got, want)):
         if as_json:
             if json.loads(json.dumps(g)) != json.loads(json.dumps(cc.plain_json(w))):
+                return False
+        elif json_flags and i < len(json_flags) and json_flags[i]:
+            if json.loads(json.dumps(cc.plain_json(g))) != json.loads(json.dumps(cc.plain_json(w))):
                 return False
         elif cc.data_of(g) != cc.data_of(w):
             return False
